@@ -1050,8 +1050,22 @@ class PiecewiseLinearCoalescentGrid(Distribution):
         diff_thetas = pop_sizes[..., 2:] - pop_sizes[..., 1:-1]
         diff_log_thetas = log_pop_sizes[..., 2:] - log_pop_sizes[..., 1:-1]
 
-        integral = intervals / thetas[..., -1:]
-        idx = (diff_thetas != 0.0).nonzero(as_tuple=True)
+        # piece containing each interval: number of grid points at or before its start.
+        # N is constant on a piece whose two thetas are equal and beyond the last grid point:
+        # the integral is duration / N there; elsewhere use the closed form of the linear piece
+        pieces = torch.bucketize(
+            grid_heights_sorted[..., 1:-1].contiguous(), self.grid, right=True
+        )
+        flat_pieces = torch.cat(
+            (
+                thetas[..., 1:] == thetas[..., :-1],
+                torch.ones(thetas.shape[:-1] + (1,), dtype=torch.bool),
+            ),
+            -1,
+        )
+        flat = flat_pieces.expand(batch_shape + (-1,)).gather(-1, pieces)
+        integral = intervals / pop_sizes[..., 1:-1]
+        idx = (~flat & (diff_thetas != 0.0)).nonzero(as_tuple=True)
         integral[idx] = intervals[idx] * diff_log_thetas[idx] / diff_thetas[idx]
 
         return -torch.sum(
